@@ -163,6 +163,7 @@ type TypeRec struct {
 	IsTypeOf bool       `json:"isTypeOf"`
 	NoRT     bool       `json:"noRT"`
 	Plain    bool       `json:"plain"`
+	SelfRes  bool       `json:"selfres"`
 }
 
 type Schema struct {
